@@ -618,39 +618,35 @@ fn parse_constant_value(
     tokens: &mut PeekableLexer,
 ) -> DiagnosticResult<WithEmbeddedLocation<GraphQLConstantValue>> {
     from_control_flow(|| {
-        to_control_flow(|| {
-            tokens
-                .parse_source_of_kind(TokenKind::IntegerLiteral)
-                .and_then(|int_literal_string| {
-                    int_literal_string.and_then(|raw_int_value| {
-                        match raw_int_value.parse::<i64>() {
-                            Ok(value) => GraphQLConstantValue::Int(value).wrap_ok(),
-                            Err(_) => Diagnostic::new(
-                                format!("Invalid integer value. Received {raw_int_value}"),
-                                int_literal_string.location.to::<Location>().wrap_some(),
-                            )
-                            .wrap_err(),
-                        }
-                    })
-                })
-        })?;
-
-        to_control_flow(|| {
-            tokens
-                .parse_source_of_kind(TokenKind::FloatLiteral)
-                .and_then(|float_literal_string| {
-                    float_literal_string.and_then(|raw_float_value| {
-                        match raw_float_value.parse::<f64>() {
-                            Ok(value) => GraphQLConstantValue::Float(value.into()).wrap_ok(),
-                            Err(_) => Diagnostic::new(
-                                format!("Invalid float value. Received {raw_float_value}."),
-                                float_literal_string.location.to::<Location>().wrap_some(),
-                            )
-                            .wrap_err(),
-                        }
-                    })
-                })
-        })?;
+        // Once a number token has been consumed, a failure to convert it must be reported:
+        // falling through to the other alternatives would silently skip the token.
+        let peeked_kind = tokens.peek().item;
+        if peeked_kind == TokenKind::IntegerLiteral || peeked_kind == TokenKind::FloatLiteral {
+            let number = match tokens.parse_source_of_kind(peeked_kind) {
+                Ok(number) => number,
+                Err(e) => return ControlFlow::Continue(e),
+            };
+            let value = if peeked_kind == TokenKind::IntegerLiteral {
+                number
+                    .item
+                    .parse::<i64>()
+                    .map(GraphQLConstantValue::Int)
+                    .map_err(|_| format!("Invalid integer value. Received {}", number.item))
+            } else {
+                number
+                    .item
+                    .parse::<f64>()
+                    .map(|value| GraphQLConstantValue::Float(value.into()))
+                    .map_err(|_| format!("Invalid float value. Received {}.", number.item))
+            };
+            return match value {
+                Ok(value) => ControlFlow::Break(number.map(|_| value)),
+                Err(message) => ControlFlow::Continue(Diagnostic::new(
+                    message,
+                    number.location.to::<Location>().wrap_some(),
+                )),
+            };
+        }
 
         to_control_flow(|| {
             tokens.parse_string_key_type(TokenKind::StringLiteral).map(
